@@ -77,10 +77,20 @@ def _audit(event, args):
         pass
 
 
+_COV = set()
+_COV_ON = bool(os.environ.get("BVMON_COVERAGE"))
+
+
 def _py_start(code, offset):
+    if _COV_ON and "bumpver" in code.co_filename and code.co_filename.startswith(core.src_dir()):
+        # coverage mode: every line of every function of the code under test (each location fires once)
+        try:
+            sys.monitoring.set_local_events(_TOOL, code, sys.monitoring.events.LINE)
+        except Exception:
+            pass
     key = _TARGETS.get((os.path.basename(code.co_filename), code.co_qualname))
     if key is None or "bumpver" not in code.co_filename:
-        return sys.monitoring.DISABLE
+        return sys.monitoring.DISABLE if not _COV_ON else None
     _REACH[key] += 1
     if key not in _LINES:
         _LINES[key] = set()
@@ -95,6 +105,8 @@ def _line(code, line):
     key = _TARGETS.get((os.path.basename(code.co_filename), code.co_qualname))
     if key is not None:
         _LINES[key].add(line)
+    if _COV_ON:
+        _COV.add((os.path.basename(code.co_filename), line))
     return sys.monitoring.DISABLE
 
 
@@ -112,7 +124,7 @@ def init_process(anchors=()):
     sys.addaudithook(_audit)
     for mname, fname in anchors:
         _TARGETS[(mname + ".py", fname)] = f"{mname}.{fname}"
-    if _TARGETS and hasattr(sys, "monitoring"):
+    if (_TARGETS or _COV_ON) and hasattr(sys, "monitoring"):
         try:
             sys.monitoring.use_tool_id(_TOOL, "bvmon")
             sys.monitoring.register_callback(_TOOL, sys.monitoring.events.PY_START, _py_start)
@@ -133,6 +145,10 @@ def bv():
         _STATE["cli"] = cli
         _STATE["runner"] = CliRunner()
     return _STATE["cli"]
+
+
+def coverage_lines():
+    return sorted(_COV)
 
 
 def reach_counts():
